@@ -8,6 +8,7 @@ import QV.Driver.Layout
 import QV.Driver.Names
 import QV.Driver.FormTree
 import QV.Driver.Xml
+import QV.Driver.ClassGraph
 
 open QV
 
@@ -35,6 +36,11 @@ def dispatch (req : Sexp) : Sexp :=
   | .list (.atom "xmltext" :: args) => Driver.Xml.handleModel false args
   | .list (.atom "xmlattr" :: args) => Driver.Xml.handleModel true args
   | .list (.atom "spec-xmlread" :: args) => Driver.Xml.handleSpec args
+  | .list (.atom "cg" :: args) => Driver.ClassGraph.handleModel "cg" args
+  | .list (.atom "cg-prefix" :: args) => Driver.ClassGraph.handleModel "cg-prefix" args
+  | .list (.atom "f10-cg" :: args) => Driver.ClassGraph.handleModel "f10-cg" args
+  | .list (.atom "cg-repaired" :: args) => Driver.ClassGraph.handleModel "cg-repaired" args
+  | .list (.atom "spec-cg" :: args) => Driver.ClassGraph.handleSpec "spec-cg" args
   | _ => .list [.atom "bad-request"]
 
 partial def loop (h : IO.FS.Stream) (out : IO.FS.Stream) : IO Unit := do
